@@ -977,7 +977,7 @@ def run(ctx):
     ctx.assumptions = ["regex forms (-r), flatten/unflatten, json-stringify/json-parse, case, unspace, sub/gsub/ssub, sec2gmt on numbers are not modelled in Coq",
                        "multi-byte --nested-fs is not modelled", "input records have pairwise distinct keys (reader invariant)"]
     forbidden_gate(ctx, ["Base", "C12"])
-    ok, why = check_props(ctx, "C12/Props.v", ["C12/Harness.vo", "C12/Proofs.vo", "C12/ProofsStream.vo", "C12/Regex.vo"])
+    ok, why = check_props(ctx, "C12/Props.v", ["C12/Harness.vo", "C12/Proofs.vo", "C12/ProofsStream.vo", "C12/Regex.vo", "C12/RegexLaws.vo"])
     verbs = mk_cases(ctx)
     per = 100 if ctx.tier == "quick" else 400
     jobs = []
